@@ -403,6 +403,10 @@ class AssemblyError(Exception):
     pass
 
 PINS = {}
+# second-stage merge heuristics for structural repository changes (moved blocks, orphaned loop specs, proof blocks after a tail
+# expression): OFF for the first attempt; check.py switches them on only when the plain merge does not compile, and then accepts a
+# full pass only (any failure is 'undecided': the placement of proof text is uncertain after such a merge)
+STRUCTURAL = False
 
 def pin_sig(toks):
     import hashlib
@@ -551,12 +555,13 @@ def assemble_fragment(text, fname, repo, stats, srcs):
         if at == bt:
             continue
         it.drift = True
+        it.old_text, it.new_text = " ".join(at), " ".join(bt)   # the whole item before / after the repository change (check.py: control-flow skeletons)
         sm = difflib.SequenceMatcher(None, at, bt, autojunk=False)
         opcodes = widen_over_rewrites(sm.get_opcodes(), a, at, report, it)
         opcodes = retarget_closing_braces(opcodes, at)
         # MOVED BLOCKS: a run of tokens the repository deleted in one place and inserted unchanged in another (the branches of an
         # `if` exchanged, a statement moved) is relocated as fragment TEXT, so that the spec text spliced inside it moves along
-        opcodes, links = split_moves(opcodes, at, bt, a)
+        opcodes, links = split_moves(opcodes, at, bt, a) if STRUCTURAL else (opcodes, {})
         moved_text = {}
         used = set()
         for xi, xd in links.items():
@@ -600,6 +605,10 @@ def assemble_fragment(text, fname, repo, stats, srcs):
                     done.add((t.start, t.end))
                     edits.append((t.start, t.trail if (t.trail is not None and t.trail > t.end) else t.end, (" " + new + " ") if first else ""))
                     first = False
+            elif op == "insert-at":
+                t0 = a[i1]
+                pos = t0.start
+                edits.append((pos, pos, " " + new + " "))
             else:  # insert
                 if i1 > 0:
                     prev = a[i1 - 1]
@@ -628,8 +637,9 @@ def assemble_fragment(text, fname, repo, stats, srcs):
     for (_q, (s, e, r)) in sorted(enumerate(edits), key=lambda x: (x[1][0], x[1][1], x[0]), reverse=True):
         out = out[:s] + r + out[e:]
     if edits:
-        out = drop_orphaned_loop_specs(out, report, items)
-        out = rehome_tail_proofs(out, report, items)
+        if STRUCTURAL:
+            out = drop_orphaned_loop_specs(out, report, items)
+            out = rehome_tail_proofs(out, report, items)
     return out, items, report
 
 def rehome_tail_proofs(out, report, items):
@@ -641,7 +651,7 @@ def rehome_tail_proofs(out, report, items):
     inside = [False] * n
     k = 0
     while k < n:
-        if toks[k].kind in ("ins", "rep"):
+        if toks[k].kind == "ins":      # (the replacement text of an R region is executable text and counts)
             j = k
             while j < n and toks[j].kind != "endm": j += 1
             for q in range(k, min(j + 1, n)): inside[q] = True
@@ -682,6 +692,15 @@ def rehome_tail_proofs(out, report, items):
             j -= 1
         if start is None: continue
         while start < n and (inside[start] or toks[start].kind != "tok"): start += 1
+        # never splice markers into a rewritten (R) region
+        rep_spans = []
+        for q2, t2 in enumerate(toks):
+            if t2.kind == "rep":
+                j2 = q2
+                while j2 < n and toks[j2].kind != "endm": j2 += 1
+                if j2 < n: rep_spans.append((t2.start, toks[j2].end))
+        if any(rs < p_ < re_ for (rs, re_) in rep_spans for p_ in (toks[start].start, toks[pidx].end, toks[e].end)):
+            continue
         fixes.append((toks[start].start, toks[pidx].end, toks[e].end))
         report.append((items[0] if items else Item("", "-", "?", None, 0), "tail-proof-rehomed", "a proof block followed the tail expression after the merge", out[toks[start].start:toks[pidx].end][:120]))
     for (a, b, c) in sorted(fixes, reverse=True):
@@ -746,7 +765,8 @@ def split_moves(opcodes, at, bt, a, min_len=6, rounds=3):
         # split x: [i1,ca) stays as it was (with x's own replacement, if any), [ca,ca+size) is the move source, [ca+size,i2) a plain delete
         src = ["delete", ca, ca + size, j2, j2]
         newx = []
-        if ca > i1 or j2 > j1: newx.append([opx if j2 > j1 and ca > i1 else ("delete" if ca > i1 else "insert"), i1, ca, j1, j2])
+        # (what the opcode put in place of the removed tokens stays where the first removed token stood: "insert-at")
+        if ca > i1 or j2 > j1: newx.append([opx if j2 > j1 and ca > i1 else ("delete" if ca > i1 else "insert-at"), i1, ca, j1, j2])
         newx.append(src)
         if ca + size < i2: newx.append(["delete", ca + size, i2, j2, j2])
         # split y: the inserted run [cb,cb+size) is the move destination
